@@ -387,7 +387,7 @@ def main(tier, replay):
         if bad:
             v.violation({"kind": "property-oracle", "scenario": sc, "violated": bad[:4], "txns": r.get("txns")})
     acov = run_acceptor(sr_traces, v, PID, exe=exe)
-    cov.update(stale_resolve_programs=len(sr_traces), stale_resolve_acceptor={k: acov.get(k) for k in ("acceptor_accepted", "acceptor_rejected", "acceptor_reject_reasons")})
+    cov.update(stale_resolve_programs=len(sr_traces), stale_resolve_acceptor={k: acov.get(k) for k in ("acceptor_accepted", "acceptor_rejected", "acceptor_reject_reasons", "acceptor_log_order_repaired", "acceptor_rejections_not_reproduced")})
     cov["traces_validated_against_impl"] = len(traces)
     cov.update(evaluations=len(scs), distinct_nontrivial=len(distinct), reads_checked=reads,
                rule="random histories: 2-5 transactions (each optimistic or pessimistic, 2pc / async / 1pc / async+1pc) over 6 shared keys, 12-34 API steps (get, batch-get, scan, reverse scan, set, insert, delete, lock-keys with return values, commit (35% running concurrently with the following steps), rollback), 0-3 region splits up front and splits in between; oracle si_history_ok: every read vs the ts-ordered committed history from MvccGetByKey, own writes, locking reads at for-update ts, write-write disjointness, insert semantics, invisibility of failed transactions, external consistency; distinct non-trivial = distinct programs with >= 2 committed transactions",
